@@ -330,7 +330,27 @@ def reader_drains(P, R, rule='C03.MPT.3'):
                     cut.append(e)
         live = rd.reach([t.bid], cut_edges=cut, cut_blocks=list(heads))
         R.ob(rule, rd.exit not in live, t, 'after a read that brought bytes every path reaches the line loop', key='read-then-parse')
-    R.floor(rule, 3)
+    # one bounded read per wake-up relies on being woken again while bytes are left: the reader's event is a persistent,
+    # level-triggered read event (edge-triggered, it fires once per write of the server - whatever a burst leaves
+    # unread, the end of input included, is never looked at)
+    EV_READ, EV_PERSIST, EV_ET = 0x02, 0x10, 0x20
+    evs = []
+    for f in P.fns.values():
+        for t in f.sites():
+            for ex in rules.event_exprs(t.ev):
+                for x in walk(ex):
+                    if isinstance(x, dict) and x.get('k') in ('callref',) and x.get('callee') in ('event_new', 'event_assign') and any(a.get('k') == 'func' and a.get('name') == rd.name for a in x.get('args', ())):
+                        evs.append((t, x))
+            if t.ev['k'] == 'call' and t.ev.get('callee') in ('event_new', 'event_assign') and any(a.get('k') == 'func' and a.get('name') == rd.name for a in t.ev['args']):
+                evs.append((t, t.ev))
+    for t, c in evs:
+        fa = [i for i, a in enumerate(c['args']) if a.get('k') == 'func'][0]
+        fl = const_of(c['args'][fa - 1])
+        R.ob(rule, isinstance(fl, int) and (fl & EV_READ) and (fl & EV_PERSIST) and not (fl & EV_ET), t,
+             'the reader is bound to a persistent, level-triggered read event (flags %s; EV_READ=0x02, EV_PERSIST=0x10, EV_ET=0x20)' % (hex(fl) if isinstance(fl, int) else sx(c['args'][fa - 1])), key='reader-event')
+    if not evs:
+        raise AnalysisBroken('no event is created for the input handler')
+    R.floor(rule, 4)
 
 
 def run(P, R, tier):
